@@ -90,3 +90,87 @@ PROPS["C01"] = {
             "workers": 12, "timeout": {"quick": 900, "thorough": 14400}}],
     "assumptions": COMMON_ASSUMPTIONS,
 }
+
+TRAIN_ASSUME = COMMON_ASSUMPTIONS + [
+    "rayon's indexed collect preserves index order (modelled as the Reduce action adding results in index order)",
+    "hook events are emitted at phase boundaries on the calling thread and, for SampleDone, after the sample's result is computed; "
+    "their order is the sink's own sequence counter taken under its lock",
+]
+
+def training_mc(mode, quick, thorough):
+    keys = ["MaxN", "MaxB", "MaxE", "MaxWorkers", "MaxTol", "NVals", "MaxLayers"]
+    q = dict(zip(keys, quick)); q["Mode"] = mode
+    t = dict(zip(keys, thorough)); t["Mode"] = mode
+    return {"module": "MC_Training", "consts": {"quick": q, "thorough": t}, "workers": 10,
+            "timeout": {"quick": 900, "thorough": 7200}}
+
+PROPS["C04"] = {
+    "level": "model_checking",
+    "technique": "TLC model checking of the training process model (Training.tla) over all task interleavings + replay of every schedule "
+                 "into learn() against the implementation's own primitives + TLC validation of hook traces (Trace_Training)",
+    "level_text": "TLC explores every interleaving of the per-sample tasks for all (N, B, E, workers) up to the bounds and checks that the applied "
+                  "updates always equal the schedule-free reference (consecutive groups of B, last one shorter, one step per group on the "
+                  "ordered sum at the pre-step weights, step number = epoch) and that every sample contributes exactly once per epoch; each "
+                  "(N,B,E) schedule is replayed: real learn() on five architectures (all layer kinds, five optimizers) must equal the same "
+                  "schedule executed with the implementation's own forward/loss/backward/update; hook traces of randomized real runs "
+                  "(N<=40, thread pools 1..8, jitter) are validated event by event against the model",
+    "level_note": "TLC bounds N<=5(7), B<=6(8), E<=2(3), workers<=2(3); numeric content abstract in the model; the replay oracle composes the "
+                  "implementation's own primitives, so it decides grouping/order/step numbers, not arithmetic (covered by C01/C02/C03/C06)",
+    "rule": "one case = one terminal behaviour of the model = one (N,B,E) schedule, replayed on 5 architectures; distinct = distinct (N,B,E,arch); "
+            "non-trivial = all (every schedule performs at least one update)",
+    "mc": [training_mc("schedule", [5, 6, 2, 2, 1, 1, 1], [7, 8, 3, 3, 1, 1, 1])],
+    "record": [{"group": "training", "trace_module": "Trace_Training"}],
+    "assumptions": TRAIN_ASSUME,
+}
+
+PROPS["C09"] = {
+    "level": "model_checking",
+    "technique": "TLC model checking of the training-flag discipline in Training.tla over all layer-kind layouts + replay into learn()/validate()/"
+                 "predict() against dropout-free twins + TLC validation of hook traces with logged flag vectors",
+    "level_text": "TLC enumerates all layer-kind sequences (dense/conv/deconv/maxpool/feedback) up to the bound, with and without validation, "
+                  "with chunk and task interleavings, and checks that no training flag is on while validation evaluates, that flags are on "
+                  "while training gradients are computed and all off after learn returns; every layout is replayed with dropout on all and on "
+                  "a seeded subset of layers: per-epoch validation metrics, validate() and predict() must be bit-identical to a dropout-free "
+                  "twin holding the same weights; the flag vectors logged by the hooks in randomized runs are checked by the trace specification",
+    "level_note": "layer sequences up to depth 2 (quick) / 3 (thorough) plus the output layer; shape-preserving 16-element layers; dropout rate 0.5",
+    "rule": "one case = one terminal behaviour = one (layout, batch, epochs, validation) configuration; replayed in two dropout variants; "
+            "non-trivial = at least one layer has dropout; distinct = distinct (layout, dropout mask, b, e, validation)",
+    "mc": [training_mc("flags", [1, 1, 1, 1, 1, 1, 2], [1, 1, 1, 1, 1, 1, 3])],
+    "record": [{"group": "training", "trace_module": "Trace_Training"}],
+    "assumptions": TRAIN_ASSUME + ["dropout masks are deterministic (fixed seed 12345 in Tensor::dropout), so twins are comparable bitwise"],
+}
+
+PROPS["C13"] = {
+    "level": "model_checking",
+    "exhaustive": True,
+    "technique": "TLC model checking of the early-stopping rule and histories in Training.tla over all validation-loss trajectories + replay of "
+                 "every trajectory into learn() through the val-loss seam + TLC validation of natural hook traces",
+    "level_text": "TLC enumerates every validation-loss trajectory over NVals ordered values for all tolerances and epoch budgets (with and without "
+                  "validation data) and checks the history lengths, that training stops early only when the last `tolerance` losses strictly "
+                  "increase after more than `tolerance` epochs, and never runs past the first such epoch; every trajectory is replayed through "
+                  "the real learn() (its own stopping code runs unmodified; only the value it sees is scripted); natural trajectories from "
+                  "real runs (diverging/converging models) are validated by the trace specification using the logged loss bit patterns",
+    "level_note": "trajectories over 3 (4) ordered values, budgets <= 6 (7), tolerance <= 3 (4); the seam shadows the computed validation loss",
+    "rule": "one case = one complete trajectory (budget, tolerance, validation on/off, value sequence); all distinct; non-trivial = all",
+    "mc": [training_mc("earlystop", [1, 1, 6, 1, 3, 3, 1], [1, 1, 7, 1, 4, 4, 1])],
+    "record": [{"group": "training", "trace_module": "Trace_Training"}],
+    "assumptions": TRAIN_ASSUME + ["the script_val_loss seam only replaces the value pushed/compared; pushes, comparison and return are the code's own"],
+}
+
+PROPS["C05"] = {
+    "level": "model_checking",
+    "technique": "TLC model checking of all task/chunk interleavings in Training.tla (ordered-sum terms) + bitwise comparison of real runs across "
+                 "thread-pool sizes and jitter seeds + TLC validation of their hook traces (completion order vs reduction order)",
+    "level_text": "In the model TLC explores every interleaving of task start/completion for up to 3 workers and every chunk order of validate and "
+                  "checks that the reduced (ordered) sum, the update sequence and the histories are the same in all terminal states; against the "
+                  "code, the same job (all layer kinds, dropout, skip/loop connections, feedback blocks with skips, five optimizers, float data, "
+                  "70 evaluation inputs, 150 batched predictions) is rebuilt and run under pools of 1..64 threads with a jitter seam and all "
+                  "outputs are compared bit for bit; each run's hook trace must be a behaviour of the model (any completion order, reduction in "
+                  "index order)",
+    "level_note": "real work-stealing schedules are sampled (the run reports how many distinct completion orders it observed and is inconclusive "
+                  "with fewer than two); exhaustiveness is about the model; rayon's indexed-collect contract is assumed",
+    "rule": "evaluations = real runs; a run is non-trivial if it completed and was compared with the baseline; distinct = distinct (job, threads, jitter seed)",
+    "mc": [training_mc("schedule", [4, 4, 2, 3, 1, 1, 1], [6, 6, 2, 3, 1, 1, 1])],
+    "record": [{"group": "threads", "trace_module": "Trace_Training", "require": {"distinct_completion_orders": 2}}],
+    "assumptions": TRAIN_ASSUME,
+}
